@@ -77,7 +77,14 @@ pub fn address(cx: &Cx) -> Address {
 pub fn distinct_addresses(cx: &Cx, n: usize) -> Vec<Address> {
     let mut out: Vec<Address> = Vec::new();
     while out.len() < n {
-        let a = address(cx);
+        // now and then an address that shares its low byte, or its high byte, with an earlier
+        // one (a comparison on half of the address would confuse the two)
+        let a = if !out.is_empty() && cx.chance(1, 4) {
+            let b = *cx.pick(&out);
+            if cx.chance(1, 2) { Address(b.0 ^ 0x0100 ^ ((cx.draw(4) as u16) << 9)) } else { Address(b.0 ^ (1 + cx.draw(255) as u16)) }
+        } else {
+            address(cx)
+        };
         if !out.contains(&a) {
             out.push(a);
         } else {
@@ -94,7 +101,13 @@ pub fn distinct_addresses(cx: &Cx, n: usize) -> Vec<Address> {
 
 /// An address different from all in `taken`.
 pub fn other_address(cx: &Cx, taken: &[Address]) -> Address {
-    let mut a = address(cx);
+    // sometimes a near miss: same low byte or same high byte as a taken address
+    let mut a = if !taken.is_empty() && cx.chance(1, 4) {
+        let b = *cx.pick(taken);
+        if cx.chance(1, 2) { Address(b.0 ^ 0x0100) } else { Address(b.0 ^ 0x0001) }
+    } else {
+        address(cx)
+    };
     while taken.contains(&a) {
         a = Address(a.0.wrapping_add(1 + cx.draw(7) as u16));
     }
@@ -218,7 +231,31 @@ pub fn unknown_frame(cx: &Cx) -> Frame<'static> {
 /// family with arbitrary bytes, 2 = Horizon family with arbitrary bytes, 3 = other family,
 /// 4 = tiny custom Horizon (one or two chunks per page), 5 = tiny custom Max3000.
 pub fn config_block(cx: &Cx) -> Vec<u8> {
-    match cx.draw(6) {
+    match cx.draw(7) {
+        6 => {
+            // arbitrary small dimensions in either family: pages of 1-13 chunks that are none of
+            // the 11 built-in sizes
+            let mut b = vec![0u8; 16];
+            b[1] = cx.draw(256) as u8;
+            let w = 1 + cx.draw(40) as u8;
+            let h = 1 + cx.draw(40) as u8;
+            if cx.chance(1, 2) {
+                b[0] = 0x08;
+                b[5] = h;
+                b[7] = w;
+            } else {
+                b[0] = 0x04;
+                b[4] = h;
+                let parts = 1 + cx.draw(4) as usize;
+                let mut left = w;
+                for i in 0..parts {
+                    let take = if i + 1 == parts { left } else { cx.draw(u64::from(left) + 1) as u8 };
+                    b[5 + i] = take;
+                    left -= take;
+                }
+            }
+            b
+        }
         0 => sign_type(cx).to_bytes().to_vec(),
         1 => {
             let mut b = cx.bytes(16);
@@ -234,6 +271,13 @@ pub fn config_block(cx: &Cx) -> Vec<u8> {
         2 => {
             let mut b = cx.bytes(16);
             b[0] = 0x08;
+            // each dimension byte zero now and then while the rest of the block is arbitrary
+            if cx.chance(1, 6) {
+                b[7] = 0;
+            }
+            if cx.chance(1, 12) {
+                b[5] = 0;
+            }
             b
         }
         3 => {
